@@ -319,7 +319,11 @@ class _CommonFile:
 
     def _encode_user(self, user):
         """user-specific wrapper for _encode_field()"""
-        return self._encode_field(user, "user")
+        user = self._encode_field(user, "user")
+        if user.lstrip().startswith(_BHASH):
+            # such a record would be read back as a comment line, silently losing the user
+            raise ValueError(f"user may not start with '#': {user!r}")
+        return user
 
     def _encode_realm(self, realm):  # pragma: no cover - abstract method
         """realm-specific wrapper for _encode_field()"""
